@@ -273,6 +273,19 @@ func c16(c *Ctx) {
 			c.R.Check(okOwner, load.FuncName(upd)+": inactive adds AsOwner", c.pos(upd.Pos()), "the control==false path adds meta.AsOwner(parent) to current", "the control==false path does not add a plain owner reference to the parent revision")
 			for _, x := range calls(upd, clientUpdate) {
 				if r, _ := cfgx.ReachableFromEdges(fa, x, tr, nil); r {
+					// the demotion is unconditional: AddOwnerReference(AsOwner) replaces an entry of the
+					// same UID, so it is what turns a left-over controller entry into a plain owner
+					through := map[*ssa.BasicBlock]bool{}
+					for _, ao := range calls(upd, xprt+"meta.AddOwnerReference") {
+						if flow.Default.AnyCall(cfgx.CallArgs(ao)[1], xprt+"meta.AsOwner") {
+							through[ao.Block()] = true
+						}
+					}
+					skip, w := cfgx.ReachesAvoidingBlocks(fa, x.Block(), through, tr, c.posf())
+					if through[x.Block()] {
+						skip = false
+					}
+					c.R.Check(!skip, site(x)+" inactive-always-plain-owner", c.pos(x.Pos()), "every control==false path to the update passes AddOwnerReference(AsOwner(parent))", "a control==false path reaches the update without (re)writing the parent's entry as a plain owner: a left-over controller entry of an inactive revision survives", w...)
 					isCur := flow.Root(underIface(cfgx.CallArgs(x)[1])) == ssa.Value(upd.Params[2])
 					c.R.Check(isCur, site(x)+" inactive-writes-current", c.pos(x.Pos()), "the inactive path updates the current object (keeps its spec)", "the inactive path does not update `current`: an inactive revision would overwrite the object's content")
 				}
@@ -300,6 +313,24 @@ func c16(c *Ctx) {
 						}
 					}
 				}
+			}
+			// a failed release write is an error (only "the object is gone" may be shrugged off)
+			for _, x := range calls(f, clientUpdate) {
+				ev := cfgx.ErrEvents(x)
+				avoid := append([]cfgx.Edge{}, ev.OK...)
+				for _, nf := range cfgx.Calls(f, func(ci ssa.CallInstruction) bool { return strings.HasSuffix(cfgx.CalleeName(ci), "errors.IsNotFound") }) {
+					if flow.Strict.Any(nf.Common().Args[0], func(v ssa.Value) bool { return v == ev.Err }) {
+						t, _ := cfgx.CallCondEdges(nf)
+						avoid = append(avoid, t...)
+					}
+				}
+				good := len(ev.Fail) > 0 && len(ev.Filtered) == 0
+				for _, r := range cfgx.ReturnsReachable(ev.Fail, avoid) {
+					if nonNilError(r) == "nil" {
+						good = false
+					}
+				}
+				c.R.Check(good, site(x)+" failed-release-is-error", c.pos(x.Pos()), "a failed demotion write (other than NotFound) is returned", "a failure of the write that gives up control (e.g. a conflict) is treated as success: the revision counts as deactivated while it still controls the object")
 			}
 			for _, x := range cfgx.Calls(f, func(ci ssa.CallInstruction) bool { return strings.HasSuffix(cfgx.CalleeName(ci), ".SetOwnerReferences") }) {
 				nSet++
